@@ -51,6 +51,20 @@ func harnessDir(dir string) string {
 
 var registry = []propertySpec{
 	{
+		ID:    "C05",
+		Files: map[string][]string{"": {"zz_verif_lib.go", "zz_verif_c05.go"}},
+		Harnesses: []harnessSpec{
+			{Name: "VerifC05_Bounds", Quick: tierSpec{Cases: 3}, Thorough: tierSpec{Cases: 3}, Sched: -1, Solver: "z3-new",
+				Bounds: "one symbolic date per granularity (full / month-year / year), every valid day of years 1..9999, both range ends"},
+			{Name: "VerifC05_Years", Quick: tierSpec{Cases: 3}, Thorough: tierSpec{Cases: 3}, Sched: -1, Solver: "z3-new",
+				Bounds: "every day d and its calendar successor; every month-year and year-only date against its first and last day; floats as reals with a sound rounding operator (relative error 2^-53, monotone)"},
+			{Name: "VerifC05_Order", Quick: tierSpec{Cases: 3}, Thorough: tierSpec{Cases: 3}, Sched: -1, Solver: "z3-new",
+				Bounds: "two independent symbolic full dates, years 1..9999, split on the order of the years"},
+		},
+		Assumptions: []string{"valid civil dates, years 1..9999", "float64 arithmetic in round-to-nearest without overflow: modelled as real arithmetic followed by an uninterpreted monotone rounding operator with relative error <= 2^-53 (sound relaxation)"},
+		Outside:     "years outside 1..9999; the exact binary64 value of Years(); DateNodes.Minimum/Maximum on parsed nodes (exercised through Years ordering only)",
+	},
+	{
 		ID:    "C06",
 		Files: map[string][]string{"": {"zz_verif_lib.go", "zz_verif_c06.go"}},
 		Harnesses: []harnessSpec{
